@@ -423,7 +423,7 @@ def m_vec_into_iter(ex, callee, args):
 
 
 @model(r'^<(std::slice::Iter<.*>|std::vec::IntoIter<.*>|Enumerate<.*>|Box<dyn Iterator<.*>>|'
-       r'aho_corasick::FindOverlappingIter<.*>|regex::SetMatchesIter<.*>|Peekable<.*>|Chars<.*>|'
+       r'aho_corasick::FindOverlappingIter<.*>|aho_corasick::FindIter<.*>|regex::SetMatchesIter<.*>|Peekable<.*>|Chars<.*>|'
        r'std::str::Split<.*>|&mut .*|Map<.*>|Rev<.*>|Filter<.*>) as IntoIterator>::into_iter$')
 def m_iter_identity(ex, callee, args):
     return args[0]
@@ -930,3 +930,9 @@ def m_opt_as_ref(ex, callee, args):
             return some(Ref(v, 0))
         return some(Ref(v.payload[1], 0))
     return none()
+
+
+@model(r'^<.* as PartialEq(<.*>)?>::ne$')
+def m_partial_ne(ex, callee, args):
+    """PartialEq::ne is the provided method: !eq"""
+    return b_not(ex.call(callee[:-2] + 'eq', args))
